@@ -5,6 +5,12 @@
 #include </repo/libs/pika/errors/src/error_code.cpp>
 #include "env.hpp"
 
+// key function of pika::exception (its real definition lives in exception.cpp, not part of any kernel):
+// defining it here emits the vtable/typeinfo that catch (pika::exception const&) clauses reference
+namespace pika {
+    exception::~exception() noexcept {}
+}
+
 struct verif_pika_error
 {
     int code;
